@@ -55,6 +55,7 @@ THEOREMS = [
     "Verif.C15.relabel_invariant_logLik",
     "Verif.C15.amplitude_constraint_one_free",
     "Verif.C15.amplitude_constraint_simplex",
+    "Verif.C15.amplitude_constraint_refuses_iff",
     "Verif.C15.reported_parameters_spec",
     "Verif.C15.one_free_amplitude_reported_on_simplex",
     "Verif.C15.default_guess_spec",
